@@ -41,7 +41,8 @@ def gen_commands(rnd, n, idx):
                 params.append((nm, ty, "value", opt))
         if rnd.random() < 0.15:
             params = [(p[0], p[1], p[2], p[3]) for p in params]
-        cmds.append({"name": "cmd_%d_%d" % (idx, c), "params": params, "mut": [rnd.random() < 0.15 for _ in params]})
+        # the command itself may be written as a raw identifier (r#name is the identifier `name`)
+        cmds.append({"name": "cmd_%d_%d" % (idx, c), "raw": rnd.random() < 0.2, "params": params, "mut": [rnd.random() < 0.15 for _ in params]})
     return cmds
 
 
@@ -51,7 +52,7 @@ def project_src(cmds):
     for c in cmds:
         generic = "<R: Runtime>" if any("<R>" in p[1] for p in c["params"]) else ""
         ps = ", ".join("%s%s: %s" % ("mut " if m else "", p[0], p[1]) for p, m in zip(c["params"], c["mut"]))
-        src.append("#[tauri::command]\npub async fn %s%s(%s) -> Result<(), String> {\n    todo!()\n}\n\n" % (c["name"], generic, ps))
+        src.append("#[tauri::command]\npub async fn %s%s%s(%s) -> Result<(), String> {\n    todo!()\n}\n\n" % ("r#" if c.get("raw") else "", c["name"], generic, ps))
     return [("lib.rs", "".join(src))]
 
 
